@@ -182,7 +182,7 @@ impl C12 {
                 // byte flips / inserts from an alphabet of troublemakers
                 let n = 1 + t.below(4);
                 for _ in 0..n {
-                    let c = b"$\n \t\r:|#{}=\0\xc3\xff@"[t.below(15)];
+                    let c = b"$\n \t\r:|#{}=\0\xc3\xff@\xa0\x80\xbf"[t.below(18)];
                     if b.is_empty() || t.chance(50) {
                         let at = t.below(b.len() + 1);
                         b.insert(at, c);
